@@ -215,7 +215,10 @@ Definition glyph_width (w : Z) : Z := if w <=? 0 then 1 else w.
 
 Definition exec_tok (k : tok) (t : term) : term :=
   match k with
-  | TGlyph txt _ w => on_screen (write_glyph txt (glyph_width w)) t
+  | TGlyph txt r w =>
+      (* an invalid byte is its own cluster (rune U+FFFD) but keeps its raw text on the span buffer *)
+      let raw_invalid := (r =? runeError) && negb (list_eqb Z.eqb txt utf8_replacement) in
+      on_screen (fun s => write_glyph txt (glyph_width w) (if raw_invalid then add_trig trInvalidUtf8 s else s)) t
   | TC0 b => exec_c0 b t
   | TEsc b => exec_esc b t
   | TIgnore => t
@@ -243,4 +246,17 @@ Section Run.
   (* every token consumes at least one byte, so |inp| steps suffice *)
   Definition run_bytes (t : term) (inp : list Z) : term * list Z :=
     run_pending (S (length inp)) t inp.
+
+  (* operation histories: backend reads interleaved with Resize calls; the
+     state is the terminal plus the bytes the blocking parser is waiting on *)
+  Inductive hop := HFeed (bs : list Z) | HResize (w h : Z).
+
+  Definition hstep (st : term * list Z) (o : hop) : term * list Z :=
+    match o with
+    | HFeed bs => run_bytes (fst st) (snd st ++ bs)
+    | HResize w h => if crashed (fst st) then st else (resize w h (fst st), snd st)
+    end.
+
+  Definition run_hist (t : term) (ops : list hop) : term * list Z := fold_left hstep ops (t, []).
 End Run.
+
